@@ -32,12 +32,16 @@ DELCORE = dict(DEL, ops=["flag", "pg_rm", "rm_ws", "rm_par", "copy", "reopen", "
 # identifiers: creations with caller-supplied uids (in use / formerly used), copies, removals
 IDS = dict(FULL, ops=["mk_group", "mk_obj", "add_data", "pg_add", "copy", "rm_ws", "rm_par", "reopen", "gc"], uid_reuse=True,
            dkinds=("fv",), classes=("Points",), pgs=("P",), caps={"groups": 3, "objects": 3, "data_per_object": 3, "entities": 14})
-ALPHAS = {"FULL": FULL, "STRUCT": STRUCT, "EDIT": EDIT, "DEL": DEL, "DELCORE": DELCORE, "IDS": IDS}
+# operations explored under the most aggressive GC schedule (collection at every function
+# entry / exit inside the library during the last operation) - no copy / re-open (cost)
+GCOPS = dict(FULL, ops=["rename", "values", "pg_add", "pg_rm", "pg_del", "move", "rm_ws", "rm_par"], ws2=False, move_data=True)
+ALPHAS = {"FULL": FULL, "STRUCT": STRUCT, "EDIT": EDIT, "DEL": DEL, "DELCORE": DELCORE, "IDS": IDS, "GCOPS": GCOPS}
 
 DROP_ASC = {"uid_order": "asc", "policy": "drop"}
 HOLD_DESC = {"uid_order": "desc", "policy": "hold"}
 DROP_DESC = {"uid_order": "desc", "policy": "drop"}
 HOLD_ASC = {"uid_order": "asc", "policy": "hold"}
+GC_DROP = {"uid_order": "asc", "policy": "drop", "gc": "every-call"}
 
 
 class TreeProp:
@@ -87,6 +91,22 @@ class TreeProp:
             for k in total:
                 total[k] += st[k]
             seeds.append(seed_h)
+        # soundness of state merging (DESIGN §2.4): the same exploration WITHOUT merging must
+        # reach exactly the same canonical states and verdicts (thorough tier, shallow depth)
+        nomerge = None
+        if not ctx.quick:
+            scene, cfg, depth, alpha = self.thorough_plan[0]
+            d0 = min(depth, 2)
+            seed_h = {"property": self.prop, "cfg": cfg, "scene": scene, "alpha": alpha, "ops": []}
+            a = explorer.explore(ctx, self.run_one, [seed_h], d0, cost=treeops.deviations, budget=budget, merge=True)
+            b = explorer.explore(ctx, self.run_one, [seed_h], d0, cost=treeops.deviations, budget=budget, merge=False)
+            if a["_keys"] != b["_keys"] or a["_viol_sigs"] != b["_viol_sigs"]:
+                raise core.HarnessError(
+                    f"state merging is unsound on {scene}/{alpha} depth {d0}: "
+                    f"{len(a['_keys'])} vs {len(b['_keys'])} canonical states, verdicts {a['_viol_sigs'] ^ b['_viol_sigs']}"
+                )
+            nomerge = {"scene": scene, "alphabet": alpha, "depth": d0, "canonical_states": len(a["_keys"]),
+                       "executions_merged": a["transitions"], "executions_unmerged": b["transitions"]}
         probe = dict(seeds[-1], ops=[["mk_group", "root"], ["reopen"], ["copy", 0, "root2", True]])
         ndet = explorer.determinism_check(self.run_one, [seeds[0], probe])
         for h in (seeds[0], probe):
@@ -104,6 +124,7 @@ class TreeProp:
             runs=runs,
             determinism_replays=ndet,
             fork_vs_plain_crosscheck=2,
+            nomerge_crosscheck=nomerge,
             exhaustive=True,
             bound=self.bound or "all histories over the listed alphabet up to the per-run depth (runs[].depth) after the scene",
         )
